@@ -523,6 +523,16 @@ func init() {
 	// ---------------------------------------------------------------- C14
 	register(&Prop{ID: "C14",
 		Gen: func(r *RNG, tier string, run int) *Trace {
+			if run%53 == 9 {
+				// long match stratum with skipped blocks of 64 KiB and more
+				t := genLongMatch(r, parserTypes)
+				for i := range t.Ops {
+					if t.Ops[i].K == "Parse" && r.Chance(0.3) {
+						t.Ops[i] = Op{K: "ParseNil"}
+					}
+				}
+				return t
+			}
 			if run%1597 == 11 {
 				return genHaulTrace(r, "direct", false) // volume stratum (5 % of its Parse calls are Parse(nil))
 			}
